@@ -978,6 +978,18 @@ def rule_nonempty(env, shared):
     return out
 
 
+def _same_counter(a, b):
+    """the counter local seen from inside the fill loop (`phi(0 | cyclic + 1)`) and as the value handed to the chunk"""
+    if a == b:
+        return True
+    def opts(t):
+        return set(t[1]) if t[0] == "phi" else {t}
+    oa, ob = opts(a), opts(b)
+    zero = ("int", 0)
+    inc = lambda s_: any(x[0] == "bin" and x[1] == "Add" and x[3] == ("int", 1) for x in s_)
+    return zero in oa and zero in ob and inc(oa) and inc(ob)
+
+
 def rule_exact(env, shared):
     """EXACT: the buffered chunk of the wrapper over an arbitrary iterator yields exactly the elements pulled for this
     chunk: slots 0..filled of the re-used buffer, `filled` counting one stored element per increment, iteration under
@@ -1010,11 +1022,22 @@ def rule_exact(env, shared):
     out.append(Ob("EXACT", "EXACT|chunk-struct", "ok", loc, "chunk = {buffer, filled: loop counter, consumed: 0}", True))
     # (E1) the counter increment is dominated by a store into slot[counter] of the payload of next()
     cnt_local = None
-    for bi, blk in enumerate(pull.blocks):
-        for s in blk["stmts"]:
-            if s["k"] == "assign" and s["rv"]["k"] == "binop" and s["rv"]["op"].startswith("Add") \
-                    and ev.operand(ctx, s["rv"]["b"]) == ("int", 1) and ev.operand(ctx, s["rv"]["a"]) == fields[fi]:
-                cnt_local = (bi, s)
+    # the fill loop may live in `pull` itself or in a private helper it calls (searched one and two levels down)
+    cands = [(pull, ctx)]
+    for (pb, pc) in list(cands):
+        for bi0, t0, c0 in pb.calls():
+            nctx0 = ev.callee_ctx(pc, bi0) if not pb.blocks[bi0]["cleanup"] else None
+            if nctx0 is not None and all(nctx0.body is not x[0] for x in cands) and len(cands) < 8:
+                cands.append((nctx0.body, nctx0))
+    pull0, ctx0 = pull, ctx
+    for (pb, pc) in cands:
+        for bi, blk in enumerate(pb.blocks):
+            for s in blk["stmts"]:
+                if s["k"] == "assign" and s["rv"]["k"] == "binop" and s["rv"]["op"].startswith("Add") \
+                        and ev.operand(pc, s["rv"]["b"]) == ("int", 1) and cnt_local is None \
+                        and _same_counter(ev.operand(pc, s["rv"]["a"]), fields[fi]):
+                    cnt_local = (bi, s)
+                    pull, ctx = pb, pc
     k1 = "EXACT|one-store-per-increment"
     if cnt_local is None:
         out.append(Ob("EXACT", k1, "viol", loc, "cannot find the increment of the filled counter"))
@@ -1027,7 +1050,7 @@ def rule_exact(env, shared):
             if c is not None and not c.indirect and c.trait == "std::ops::IndexMut":
                 t = pull.term(d)
                 idx = unref(ev.operand(ctx, t["args"][1]))
-                if idx == fields[fi]:
+                if idx == fields[fi] or _same_counter(idx, fields[fi]):
                     stored = True
         somef = any(f[0] == "is_some" and f[2] is True and "Iterator::next" in fmt(f[1])
                     for f in block_facts(ev, ctx, bi))
@@ -1038,6 +1061,7 @@ def rule_exact(env, shared):
             out.append(Ob("EXACT", k1, "viol", pull.file_line(s["loc"]),
                           "the filled counter is incremented without a dominating store of the pulled element into "
                           "slot[filled] (stored=%s, under Some(next)=%s)" % (stored, somef)))
+    pull, ctx = pull0, ctx0
     # (E2) zero filled -> None
     k2 = "EXACT|zero-filled-is-None"
     good = False
